@@ -32,9 +32,12 @@ impl MaybeDynSized for BasicMemoryInfoTag {
 //@  novis
 //@  rewrite /(?<![:\w])size_of::</ => /mem::size_of::</ x*
 //@end
-//@extract multiboot2/src/memory_map.rs :: impl MaybeDynSized for BasicMemoryInfoTag :: fn dst_len
-//@  novis
-//@  sigrewrite /\(_: / => /(_h: /
+//@extractall multiboot2/src/memory_map.rs :: impl MaybeDynSized for BasicMemoryInfoTag
+//@  const BASE_SIZE: skip
+//@  type Header: skip
+//@  fn *: rules R2
+//@  fn dst_len: novis
+//@  fn dst_len: sigrewrite /\(_: / => /(_h: /
 //@end
 }
 
@@ -52,9 +55,12 @@ impl MaybeDynSized for BootdevTag {
 //@  novis
 //@  rewrite /(?<![:\w])size_of::</ => /mem::size_of::</ x*
 //@end
-//@extract multiboot2/src/bootdev.rs :: impl MaybeDynSized for BootdevTag :: fn dst_len
-//@  novis
-//@  sigrewrite /\(_: / => /(_h: /
+//@extractall multiboot2/src/bootdev.rs :: impl MaybeDynSized for BootdevTag
+//@  const BASE_SIZE: skip
+//@  type Header: skip
+//@  fn *: rules R2
+//@  fn dst_len: novis
+//@  fn dst_len: sigrewrite /\(_: / => /(_h: /
 //@end
 }
 
@@ -72,9 +78,12 @@ impl MaybeDynSized for ApmTag {
 //@  novis
 //@  rewrite /(?<![:\w])size_of::</ => /mem::size_of::</ x*
 //@end
-//@extract multiboot2/src/apm.rs :: impl MaybeDynSized for ApmTag :: fn dst_len
-//@  novis
-//@  sigrewrite /\(_: / => /(_h: /
+//@extractall multiboot2/src/apm.rs :: impl MaybeDynSized for ApmTag
+//@  const BASE_SIZE: skip
+//@  type Header: skip
+//@  fn *: rules R2
+//@  fn dst_len: novis
+//@  fn dst_len: sigrewrite /\(_: / => /(_h: /
 //@end
 }
 
@@ -92,9 +101,12 @@ impl MaybeDynSized for EFISdt32Tag {
 //@  novis
 //@  rewrite /(?<![:\w])size_of::</ => /mem::size_of::</ x*
 //@end
-//@extract multiboot2/src/efi.rs :: impl MaybeDynSized for EFISdt32Tag :: fn dst_len
-//@  novis
-//@  sigrewrite /\(_: / => /(_h: /
+//@extractall multiboot2/src/efi.rs :: impl MaybeDynSized for EFISdt32Tag
+//@  const BASE_SIZE: skip
+//@  type Header: skip
+//@  fn *: rules R2
+//@  fn dst_len: novis
+//@  fn dst_len: sigrewrite /\(_: / => /(_h: /
 //@end
 }
 
@@ -112,9 +124,12 @@ impl MaybeDynSized for EFISdt64Tag {
 //@  novis
 //@  rewrite /(?<![:\w])size_of::</ => /mem::size_of::</ x*
 //@end
-//@extract multiboot2/src/efi.rs :: impl MaybeDynSized for EFISdt64Tag :: fn dst_len
-//@  novis
-//@  sigrewrite /\(_: / => /(_h: /
+//@extractall multiboot2/src/efi.rs :: impl MaybeDynSized for EFISdt64Tag
+//@  const BASE_SIZE: skip
+//@  type Header: skip
+//@  fn *: rules R2
+//@  fn dst_len: novis
+//@  fn dst_len: sigrewrite /\(_: / => /(_h: /
 //@end
 }
 
@@ -132,9 +147,12 @@ impl MaybeDynSized for RsdpV1Tag {
 //@  novis
 //@  rewrite /(?<![:\w])size_of::</ => /mem::size_of::</ x*
 //@end
-//@extract multiboot2/src/rsdp.rs :: impl MaybeDynSized for RsdpV1Tag :: fn dst_len
-//@  novis
-//@  sigrewrite /\(_: / => /(_h: /
+//@extractall multiboot2/src/rsdp.rs :: impl MaybeDynSized for RsdpV1Tag
+//@  const BASE_SIZE: skip
+//@  type Header: skip
+//@  fn *: rules R2
+//@  fn dst_len: novis
+//@  fn dst_len: sigrewrite /\(_: / => /(_h: /
 //@end
 }
 
@@ -152,9 +170,12 @@ impl MaybeDynSized for RsdpV2Tag {
 //@  novis
 //@  rewrite /(?<![:\w])size_of::</ => /mem::size_of::</ x*
 //@end
-//@extract multiboot2/src/rsdp.rs :: impl MaybeDynSized for RsdpV2Tag :: fn dst_len
-//@  novis
-//@  sigrewrite /\(_: / => /(_h: /
+//@extractall multiboot2/src/rsdp.rs :: impl MaybeDynSized for RsdpV2Tag
+//@  const BASE_SIZE: skip
+//@  type Header: skip
+//@  fn *: rules R2
+//@  fn dst_len: novis
+//@  fn dst_len: sigrewrite /\(_: / => /(_h: /
 //@end
 }
 
@@ -172,9 +193,12 @@ impl MaybeDynSized for EFIBootServicesNotExitedTag {
 //@  novis
 //@  rewrite /(?<![:\w])size_of::</ => /mem::size_of::</ x*
 //@end
-//@extract multiboot2/src/efi.rs :: impl MaybeDynSized for EFIBootServicesNotExitedTag :: fn dst_len
-//@  novis
-//@  sigrewrite /\(_: / => /(_h: /
+//@extractall multiboot2/src/efi.rs :: impl MaybeDynSized for EFIBootServicesNotExitedTag
+//@  const BASE_SIZE: skip
+//@  type Header: skip
+//@  fn *: rules R2
+//@  fn dst_len: novis
+//@  fn dst_len: sigrewrite /\(_: / => /(_h: /
 //@end
 }
 
@@ -192,9 +216,12 @@ impl MaybeDynSized for EFIImageHandle32Tag {
 //@  novis
 //@  rewrite /(?<![:\w])size_of::</ => /mem::size_of::</ x*
 //@end
-//@extract multiboot2/src/efi.rs :: impl MaybeDynSized for EFIImageHandle32Tag :: fn dst_len
-//@  novis
-//@  sigrewrite /\(_: / => /(_h: /
+//@extractall multiboot2/src/efi.rs :: impl MaybeDynSized for EFIImageHandle32Tag
+//@  const BASE_SIZE: skip
+//@  type Header: skip
+//@  fn *: rules R2
+//@  fn dst_len: novis
+//@  fn dst_len: sigrewrite /\(_: / => /(_h: /
 //@end
 }
 
@@ -212,9 +239,12 @@ impl MaybeDynSized for EFIImageHandle64Tag {
 //@  novis
 //@  rewrite /(?<![:\w])size_of::</ => /mem::size_of::</ x*
 //@end
-//@extract multiboot2/src/efi.rs :: impl MaybeDynSized for EFIImageHandle64Tag :: fn dst_len
-//@  novis
-//@  sigrewrite /\(_: / => /(_h: /
+//@extractall multiboot2/src/efi.rs :: impl MaybeDynSized for EFIImageHandle64Tag
+//@  const BASE_SIZE: skip
+//@  type Header: skip
+//@  fn *: rules R2
+//@  fn dst_len: novis
+//@  fn dst_len: sigrewrite /\(_: / => /(_h: /
 //@end
 }
 
@@ -232,9 +262,12 @@ impl MaybeDynSized for ImageLoadPhysAddrTag {
 //@  novis
 //@  rewrite /(?<![:\w])size_of::</ => /mem::size_of::</ x*
 //@end
-//@extract multiboot2/src/image_load_addr.rs :: impl MaybeDynSized for ImageLoadPhysAddrTag :: fn dst_len
-//@  novis
-//@  sigrewrite /\(_: / => /(_h: /
+//@extractall multiboot2/src/image_load_addr.rs :: impl MaybeDynSized for ImageLoadPhysAddrTag
+//@  const BASE_SIZE: skip
+//@  type Header: skip
+//@  fn *: rules R2
+//@  fn dst_len: novis
+//@  fn dst_len: sigrewrite /\(_: / => /(_h: /
 //@end
 }
 
@@ -248,9 +281,12 @@ impl MaybeDynSized for EndTag {
 //@extract multiboot2/src/end.rs :: impl MaybeDynSized for EndTag :: const BASE_SIZE
 //@  novis
 //@end
-//@extract multiboot2/src/end.rs :: impl MaybeDynSized for EndTag :: fn dst_len
-//@  novis
-//@  sigrewrite /\(_: / => /(_h: /
+//@extractall multiboot2/src/end.rs :: impl MaybeDynSized for EndTag
+//@  const BASE_SIZE: skip
+//@  type Header: skip
+//@  fn *: rules R2
+//@  fn dst_len: novis
+//@  fn dst_len: sigrewrite /\(_: / => /(_h: /
 //@end
 }
 
